@@ -75,6 +75,42 @@ check(
     "DESIGN.md section 3 / C18",
 )
 
+check(
+    "C05",
+    "model-based property testing: scenario model renders documents and knows every reference's intended antecedent; exhaustive small scenarios + Hypothesis-drawn larger ones",
+    "Generated-input search (exploration) with a scenario model as oracle: extraction + resolution of each rendered "
+    "document must give one resource per case and attach every model-unambiguous reference to its intended case; "
+    "impossible / orphaned id. citations must be left out. Small scenarios (2 cases, <= 4 statements) are enumerated.",
+    "Scenario grammar bounds the prose; documents whose extraction shape differs from the written shape are counted and not judged here.",
+    "DESIGN.md section 3 / C05",
+)
+check(
+    "C06",
+    "exhaustive bounded enumeration of citation-kind sequences (real extracted objects) + property-based testing on extracted lists; partition-validity oracle with independent equality",
+    "Exhaustive over all sequences up to length 4 (quick) / 5 (thorough) of a 21-letter alphabet of real citation "
+    "objects, plus lists extracted from generated documents; the output mapping is checked as a faithful ordered "
+    "partition with an equality decided independently of __eq__/__hash__.",
+    "Bounded history length; default resolvers only; corrected_reporter() trusted (C16).",
+    "DESIGN.md section 3 / C06-C08",
+)
+check(
+    "C07",
+    "exhaustive bounded enumeration + property-based testing against a reference model of candidate sets written from the statement",
+    "Same domain as C06; a reference model computes the candidate resources of every non-full citation and each "
+    "attachment made by the implementation must be the model's unique candidate (id.: predecessor's resource, "
+    "placeholder, numeric pin in [page, page+150]).",
+    "Safety direction only (liveness is C05). strip_punct trusted. Bounded history length.",
+    "DESIGN.md section 3 / C06-C08",
+)
+check(
+    "C08",
+    "exhaustive bounded enumeration + property-based testing; prefix (metamorphic) oracle: resolve(prefix) == restriction of resolve(whole)",
+    "Same domain as C06; for every prefix of every enumerated / extracted list the resolution of the prefix must equal "
+    "the restriction of the resolution of the whole list (groups, members, order).",
+    "Bounded history length; default resolvers only.",
+    "DESIGN.md section 3 / C06-C08",
+)
+
 
 def build():
     all_ids = [f"C{i:02d}" for i in range(1, 21)]
